@@ -758,7 +758,9 @@ func (l *lane) runKeSrv(tc *tcase, c *acase, out emitter) {
 			r.Cls = "sampling"
 			req = mutate(l.rng, req, nil)
 		}
-		half := strings.HasPrefix(c.Kt, "eof") || i > 0
+		// (a stream with a length-variant record may leave the reader waiting for bytes that were
+		// never announced to it: the writer half-closes behind it, like behind the eof terminators)
+		half := strings.HasPrefix(c.Kt, "eof") || keHasLv(c.Ke, c.Kt) || i > 0
 		res, _, err := keExchange(addr, c.Pre, req, half, 2*time.Second)
 		answered := err == nil && (len(res.cookies) > 0 || res.errCode >= 0 || res.eom)
 		switch {
